@@ -158,3 +158,36 @@ func HarnessRestoredCommands() {
 	}
 	vCover(which == 6, "resume on a restored proxy reachable")
 }
+
+// HarnessRemoveDuringProbe: a service is removed (or redeployed) while a health probe of its target is in flight and
+// completes with a state change (healthy -> unhealthy): the command returns, nothing deadlocks, no race.
+func HarnessRemoveDuringProbe() {
+	vT2(vParam("preemptions", 1), vParam("firings", 10))
+	vSortMode = 0
+	router := NewRouter("/state")
+	topts := TargetOptions{HealthCheckConfig: HealthCheckConfig{Path: "/up", Interval: 1000, Timeout: 500}}
+	lat := vDur("second_probe_latency")
+	vAssume(lat < 500)
+	vProbeScripts["a0:80"] = &vProbeScript{parkAfter: true, outcomes: []vProbeOutcome{
+		{kind: vProbeStatus, status: 200, latency: 0},
+		{kind: vProbeStatus, status: 500, latency: lat},
+	}}
+	vProbeScripts["n0:80"] = vHealthyScript()
+	vAssert(router.DeployService("svc", []string{"a0:80"}, ServiceOptions{Hosts: []string{"h"}}, topts, 5000, 0) == nil, "remove during probe: deploy")
+	// the command is issued after an arbitrary number of further events (e.g. when the second probe has begun)
+	k := vIntRange("command_after", 0, 6)
+	base := len(vTrace)
+	vBlockUntil(func() bool { return len(vTrace) >= base+k || vProbeParked > 0 })
+	done := false
+	go func() {
+		if vChoose("command", 2) == 0 {
+			router.RemoveService("svc")
+		} else {
+			router.DeployService("svc", []string{"n0:80"}, ServiceOptions{Hosts: []string{"h"}}, topts, 5000, 0)
+		}
+		done = true
+	}()
+	vBlockUntil(func() bool { return done })
+	vAssert(vRaceCount() == 0, "remove during probe: no data race")
+	vCover(true, "remove during probe explored")
+}
